@@ -73,7 +73,8 @@ MsgOptsAll == {"none", "wrapper_deprecated", "type_object", "type_object_any", "
 MsgOptsNone == {"none"}
 MsgOptsFew == {"none", "type_oneof", "psm"}
 \* value_prefixed: a value whose short name begins with the enum's prefix once more (E0_E0_X)
-EnumOptsAll == {"none", "no_default", "info_fields", "value_info", "value_prefixed"}
+\* negative_value: the second value has number -1 (proto3 enums are int32: negative numbers are legal, protoc only warns)
+EnumOptsAll == {"none", "no_default", "info_fields", "value_info", "value_prefixed", "negative_value"}
 EnumOptsNone == {"none"}
 RecAll == {"self", "mutual", "map", "repeated", "optional", "oneof", "flatchild", "flatclash", "oneofclash", "flatoneof", "nestclash", "flatlasso"}
 \* recursion forms that need three messages (focus_rec3)
